@@ -89,7 +89,12 @@ def run(tier, replay=None):
         out.violation("spec_C12 is false of the implementation's observation: a task's verdict differs from its "
                       "sequential verdict", {"case": c, "observation": o, "model_observation": model_observation(c),
                                              "how": "./check C12 --replay <this file>"})
-    for c, o in defn[:1]:
+    hung = [(c, o) for c, o in defn if o.get("defn_error") == "Hang"]
+    for c, o in hung[:1]:
+        out.violation("a task or thread of this world never reaches its next suspension point (in the model every "
+                      "call returns or raises)", {"case": c, "observation": o, "model_observation": model_observation(c),
+                                                  "how": "./check C12 --replay <this file>"})
+    for c, o in [(c, o) for c, o in defn if o.get("defn_error") not in ("Hang", "Skipped")][:1]:
         out.violation("a generated world failed: %s" % o, {"case": c, "observation": o}, found_input=False)
     if model_fail:
         problems.append("the model's own observation does not satisfy spec_C12")
